@@ -32,6 +32,7 @@ type Config struct {
 	BadManifests    bool     // malformed / wrong-shape / bad-descriptor manifests
 	Retype          bool     // same manifest bytes pushed under another opaque media type
 	Attach          bool     // several live writer handles on one upload session
+	NoEmptyBlobType bool     // never push a blob without a media type
 	BigLens         []int    // extra blob lengths (e.g. around chunk sizes)
 	MaxSmall        int      // uniform small blob lengths 0..MaxSmall
 	BigManifest     int      // if > 0, some manifests are padded to about this size
@@ -135,7 +136,7 @@ func Gen(cfg Config) func(t *rapid.T) Script {
 			m.Salt = i
 			kinds := []string{"image", "image", "index", "index", "opaque"}
 			if cfg.BadManifests {
-				kinds = append(kinds, "badjson", "wrongshape", "opaquebin")
+				kinds = append(kinds, "badjson", "wrongshape", "opaquebin", "trailing")
 			}
 			if i == 0 {
 				kinds = []string{"image", "opaque"}
@@ -283,11 +284,13 @@ func Gen(cfg Config) func(t *rapid.T) Script {
 			case "pushBlob":
 				op.B = rapid.IntRange(0, nb-1).Draw(t, "blob")
 				if cfg.Mismatch && rapid.IntRange(0, 7).Draw(t, "mismatch") == 0 {
-					op.Mode = rapid.IntRange(1, 3).Draw(t, "mismatchKind") // mode 4 (empty media type) is a documented gray zone: not generated
+					op.Mode = rapid.IntRange(1, 3).Draw(t, "mismatchKind")
 				} else {
 					sh.blobs[[2]int{op.R, op.B}] = 1
 					if cfg.BlobTypes && rapid.IntRange(0, 3).Draw(t, "blobType") == 0 {
 						op.Mode = 5
+					} else if !cfg.NoEmptyBlobType && rapid.IntRange(0, 7).Draw(t, "noBlobType") == 0 {
+						op.Mode = 4 // no media type in the descriptor: only digest and size are significant
 					}
 				}
 			case "getBlob", "resolveBlob":
